@@ -18,6 +18,8 @@ package main
 
 import (
 	"bytes"
+	"encoding/hex"
+	"encoding/json"
 	exml "encoding/xml"
 	"fmt"
 	"io"
@@ -940,9 +942,14 @@ func c06Judge(c *Ctx, st *h.Stage, cases []*c06Case) error {
 			c.R.Add(h.Finding{Stage: st.Name, Kind: "diff", What: "model.c06.minify: model error " + msg, Input: cs.key, Hex: h.Hex(cs.src), Config: fmt.Sprint("keep=", cs.keep)})
 			diff = true
 		} else if !bytes.Equal(got, cs.out) {
+			c06Diffs++
+			if c06Diffs > 8 { // keep room in the report for failing inputs of the property itself
+				goto afterDiff
+			}
 			c.R.Add(h.Finding{Stage: st.Name, Kind: "diff", What: "model.c06.minify", Input: cs.key, Hex: h.Hex(cs.src), Config: fmt.Sprint("keep=", cs.keep), Impl: h.Q(c06Clip(cs.out)), Model: h.Q(c06Clip(got))})
 			diff = true
 		}
+	afterDiff:
 		_ = diff
 		// triggers
 		trigs := map[string]bool{}
@@ -1069,6 +1076,9 @@ func c06Clip(b []byte) []byte {
 // trigger name → id of the open known finding
 var c06Open = map[string]string{}
 
+// number of model/implementation disagreements seen (only the first few are recorded individually)
+var c06Diffs int
+
 func c06Prepare(c *Ctx, st *h.Stage, src []byte, keep bool) *c06Case {
 	out, err, crash := c06Minify(src, keep)
 	key := c06Key(src, keep)
@@ -1090,6 +1100,34 @@ func init() {
 				c06Open[k.Trigger] = k.ID
 			}
 		}
+		// ---- replay of a recorded failing input (./check C06 --replay file) ----
+		if c.Replay != "" {
+			if b, err := os.ReadFile(c.Replay); err == nil {
+				var obj struct {
+					Finding struct {
+						Hex    string `json:"input_hex"`
+						Config string `json:"config"`
+					} `json:"finding"`
+				}
+				if json.Unmarshal(b, &obj) == nil && obj.Finding.Hex != "" {
+					src, _ := hex.DecodeString(obj.Finding.Hex)
+					st := c.R.StartStage("replay", "the recorded failing input, both KeepWhitespace settings")
+					var cases []*c06Case
+					for _, keep := range []bool{false, true} {
+						if obj.Finding.Config != "" && obj.Finding.Config != fmt.Sprint("keep=", keep) {
+							continue
+						}
+						if cs := c06Prepare(c, st, src, keep); cs != nil {
+							cases = append(cases, cs)
+						}
+					}
+					err := c06Judge(c, st, cases)
+					st.End()
+					return err
+				}
+			}
+		}
+
 		// ---- known findings: replay the exact inputs ----
 		for _, k := range h.Known("C06") {
 			in := k.ReplayStr("input")
@@ -1209,6 +1247,9 @@ func init() {
 			return err
 		}
 		st.End()
+		if c06Diffs > 8 {
+			c.R.Note("%d model/implementation disagreements in total (first 8 recorded)", c06Diffs)
+		}
 		return nil
 	})
 }
